@@ -50,6 +50,26 @@ func (e *Engine) guardIndex() map[string]*guardDecl {
 				gd.fields[x.Name] = true
 			}
 		}
+		// the struct, its mutex and every protected field must exist: a renamed field would otherwise
+		// silently lose its guard obligations
+		if p := e.pkgByPath[g.Pkg]; p != nil {
+			if obj := p.Scope().Lookup(tn); obj == nil {
+				e.loadErrs = append(e.loadErrs, "guarded_by: no type "+tn+" in "+g.Pkg+" (contract out of date)")
+			} else if st, ok := obj.Type().Underlying().(*types.Struct); ok {
+				has := map[string]bool{}
+				for i := 0; i < st.NumFields(); i++ {
+					has[st.Field(i).Name()] = true
+				}
+				if !has[gd.mutexFld] {
+					e.loadErrs = append(e.loadErrs, "guarded_by: "+tn+" has no field "+gd.mutexFld+" (contract out of date)")
+				}
+				for f := range gd.fields {
+					if !has[f] {
+						e.loadErrs = append(e.loadErrs, "guarded_by: "+tn+" has no field "+f+" (contract out of date)")
+					}
+				}
+			}
+		}
 		e.guardIdx[gd.structT+"."+gd.mutexFld] = gd
 		for f := range gd.fields {
 			e.guardByField[gd.structT+"."+f] = gd
